@@ -19,6 +19,7 @@ import (
 	"errors"
 	"strings"
 	"sync"
+	"time"
 
 	"github.com/jackc/pgx/v5/pgconn"
 	sqlite3 "github.com/mattn/go-sqlite3"
@@ -35,6 +36,11 @@ const (
 	FaultError
 	FaultCancel
 	FaultDeadlockOnce
+	// FaultCancelAfter cancels the request right AFTER the k-th event (a
+	// statement) has completed and gives database/sql's watcher time to roll the
+	// transaction back: what follows - the next statement or the COMMIT - meets
+	// a transaction that is already gone
+	FaultCancelAfter
 )
 
 type Event struct {
@@ -45,15 +51,16 @@ type Event struct {
 }
 
 type Gate struct {
-	mu      sync.Mutex
-	armed   bool
-	n       int
-	events  []Event
-	mode    FaultMode
-	k       int
-	fired   bool
-	firedAt Event
-	cancel  func()
+	mu           sync.Mutex
+	armed        bool
+	n            int
+	events       []Event
+	mode         FaultMode
+	k            int
+	fired        bool
+	firedAt      Event
+	cancel       func()
+	pendingAfter bool
 
 	// schedule control
 	sched *Scheduler
@@ -107,6 +114,13 @@ func (g *Gate) step(kind, query string) error {
 	if g.mode == FaultNone || g.fired || g.n != g.k {
 		return nil
 	}
+	if g.mode == FaultCancelAfter {
+		if kind != "exec" && kind != "query" {
+			return nil
+		}
+		g.fired, g.firedAt, g.pendingAfter = true, ev, true
+		return nil
+	}
 	g.fired, g.firedAt = true, ev
 	switch g.mode {
 	case FaultError:
@@ -120,6 +134,18 @@ func (g *Gate) step(kind, query string) error {
 		return nil
 	}
 	return nil
+}
+
+// afterStmt runs when a statement has completed.
+func (g *Gate) afterStmt() {
+	g.mu.Lock()
+	p, c := g.pendingAfter, g.cancel
+	g.pendingAfter = false
+	g.mu.Unlock()
+	if p && c != nil {
+		c()
+		time.Sleep(5 * time.Millisecond)
+	}
 }
 
 type gateDriver struct {
@@ -184,7 +210,9 @@ func (c *gateConn) ExecContext(ctx context.Context, query string, args []driver.
 	if err := ctx.Err(); err != nil {
 		return nil, err
 	}
-	return c.SQLiteConn.ExecContext(ctx, query, args)
+	res, err := c.SQLiteConn.ExecContext(ctx, query, args)
+	c.g.afterStmt()
+	return res, err
 }
 
 func (c *gateConn) QueryContext(ctx context.Context, query string, args []driver.NamedValue) (driver.Rows, error) {
@@ -195,6 +223,7 @@ func (c *gateConn) QueryContext(ctx context.Context, query string, args []driver
 		return nil, err
 	}
 	rows, err := c.SQLiteConn.QueryContext(ctx, query, args)
+	c.g.afterStmt()
 	if err == nil && !c.inTx {
 		if actor := actorOf(ctx); actor != "" && c.g.holds(actor, "postQuery") {
 			if sr, ok := rows.(*sqlite3.SQLiteRows); ok {
@@ -227,14 +256,18 @@ func (s *gateStmt) ExecContext(ctx context.Context, args []driver.NamedValue) (d
 	if err := s.g.step("exec", s.q); err != nil {
 		return nil, err
 	}
-	return s.SQLiteStmt.ExecContext(ctx, args)
+	res, err := s.SQLiteStmt.ExecContext(ctx, args)
+	s.g.afterStmt()
+	return res, err
 }
 
 func (s *gateStmt) QueryContext(ctx context.Context, args []driver.NamedValue) (driver.Rows, error) {
 	if err := s.g.step("query", s.q); err != nil {
 		return nil, err
 	}
-	return s.SQLiteStmt.QueryContext(ctx, args)
+	rows, err := s.SQLiteStmt.QueryContext(ctx, args)
+	s.g.afterStmt()
+	return rows, err
 }
 
 type gateTx struct {
